@@ -27,8 +27,41 @@ LEVEL_NOTE = ("Not decided: observed request timing (send latency, clock behavio
 SEND = ("reqwest::async_impl::request::RequestBuilder::send", "reqwest::async_impl::client::Client::execute",
         "reqwest::blocking::request::RequestBuilder::send", "reqwest::blocking::client::Client::execute")
 RL = "acmed::http::rate_limit"
+GET_K = "acmed::http::get"
+POST_K = "acmed::http::post"
 BUA = "acmed::endpoint::RateLimit::block_until_allowed"
 CMP_OPS = ("Ge", "Gt", "Le", "Lt", "Eq", "Ne")
+
+
+def limiter_wrappers(prog):
+    """async fns whose every return is preceded by a completed RateLimit::block_until_allowed on the rl field of their
+    first parameter (http::rate_limit today; discovered, not named)"""
+    out = []
+    for k, b in prog.bodies.items():
+        if b.crate != "acmed" or not k.endswith("::{closure#0}") or not b.is_coroutine:
+            continue
+        bp = polls(b, BUA)
+        if not bp:
+            continue
+        rets = b.return_blocks()
+        ok, hit = unreachable_without(b, rets, removed_nodes=[p.bb for p in bp])
+        args_ok = all(("acmed::endpoint::Endpoint", "rl") in arg_origins(c, 0).fields and arg_origins(c, 0).has_leaf("upvar:0") for c in b.calls_to(BUA))
+        if ok and args_ok and b.calls_to(BUA) and len([c for c in b.calls if c.bb in b.live_blocks() and not c.exp]) <= 12:
+            out.append(k[:-len("::{closure#0}")])
+    return out
+
+
+def admission_polls(prog, body, wrappers):
+    """blocks of `body` where a limiter admission for this function's endpoint completes"""
+    out = []
+    for w in wrappers:
+        out += [p.bb for p in polls(body, w)]
+    if body.key[:-len("::{closure#0}")] not in wrappers:
+        for c in body.calls_to(BUA):
+            a = arg_origins(c, 0)
+            if ("acmed::endpoint::Endpoint", "rl") in a.fields and a.has_leaf("upvar:0"):
+                out += [p.bb for p in polls(body, BUA)]
+    return sorted(set(out))
 
 
 def check(ctx):
@@ -51,9 +84,11 @@ def check(ctx):
     for c in prog.all_calls_to("*hyper::client", "*ureq::", "*attohttpc::", "std::net::tcp::TcpStream::connect", include_derive=True):
         if c.body.crate == "acmed":
             ctx.fail(R1a, c.where(), "network client other than reqwest used in acmed: %s" % c.name, [c.body.key, "other-client"])
+    wrappers = limiter_wrappers(prog)
+    ctx.notes.append("limiter wrappers discovered: %s" % wrappers)
     for key, cs in by_body.items():
         body = cs[0].body
-        rl_polls = [p.bb for p in polls(body, RL)]
+        rl_polls = admission_polls(prog, body, wrappers)
         send_bbs = [c.bb for c in cs]
         if not rl_polls:
             ctx.fail(R1b, cs[0].where(), "%s sends without awaiting rate_limit at all" % key, [key, "no-rate-limit"])
@@ -72,28 +107,23 @@ def check(ctx):
                          "(retry loop)" % key, [key, "send-to-send"])
             else:
                 ctx.ok(R1b, "%s: no send→send path avoiding rate_limit (send @bb%d)" % (key, c.bb))
-        # the endpoint given to rate_limit is this function's own endpoint parameter
-        for c in body.calls_to(RL):
-            sl = arg_origins(c, 0)
-            ctx.require(R1b, sl.has_leaf("upvar:0"), c.where(),
-                        "rate_limit is called on this function's endpoint parameter (origins %s)" % sorted(sl.leaves),
-                        [key, "rate-limit-arg"])
-    # R1c
-    rlb = prog.async_body(RL)
-    bua_polls = polls(rlb, BUA)
-    if not bua_polls:
-        ctx.fail(R1c, "%s:%s" % (rlb.file, rlb.line), "http::rate_limit does not await RateLimit::block_until_allowed",
-                 [RL, "no-block-until-allowed"])
-    else:
-        rets = rlb.return_blocks()
-        ok, hit = unreachable_without(rlb, rets, removed_nodes=[p.bb for p in bua_polls])
-        ctx.require(R1c, ok, where(rlb, rets[0]) if rets else "-", "rate_limit returns only after block_until_allowed completed",
-                    [RL, "return-before-admission"])
-        for c in rlb.calls_to(BUA):
-            sl = arg_origins(c, 0)
-            good = ("acmed::endpoint::Endpoint", "rl") in sl.fields and sl.has_leaf("upvar:0")
-            ctx.require(R1c, good, c.where(), "block_until_allowed receives `endpoint.rl` of the parameter (fields %s)" %
-                        sorted(sl.fields), [RL, "limiter-of-endpoint"])
+        # the endpoint given to the limiter (wrapper) is this function's own endpoint parameter
+        for w in wrappers:
+            for c in body.calls_to(w):
+                sl = arg_origins(c, 0)
+                ctx.require(R1b, sl.has_leaf("upvar:0"), c.where(),
+                            "the limiter is called on this function's endpoint parameter (origins %s)" % sorted(sl.leaves),
+                            [key, "rate-limit-arg"])
+    # R1c: every function that LOOKS like a limiter wrapper (named rate_limit today) really is one
+    for k, b in prog.bodies.items():
+        if b.crate == "acmed" and b.is_coroutine and b.calls_to(BUA) and k.startswith("acmed::http::") and k.endswith("::{closure#0}"):
+            name = k[:-len("::{closure#0}")]
+            if name in (GET_K, POST_K):
+                continue
+            ctx.require(R1c, name in wrappers, "%s:%s" % (b.file, b.line),
+                        "%s awaits block_until_allowed on `endpoint.rl` of its parameter on every path before returning" % name, [name, "not-a-wrapper"])
+    ctx.require(R1c, bool(wrappers) or all(admission_polls(prog, cs[0].body, wrappers) for cs in by_body.values()), "acmed/src/http.rs",
+                "the limiter is reached through %s" % (wrappers or "direct awaits of block_until_allowed"), ["http", "limiter-reachable"])
     check_limiter(ctx)
     check_sharing(ctx)
 
@@ -137,79 +167,102 @@ def check_limiter(ctx):
             after = b.reachable_after(pushes[0].bb)
             ctx.require(R2a, ra[0].bb not in after, pushes[0].where(), "one log entry per admission (push is followed by return)",
                         [BUA, "push-in-loop"])
-    # R2b
+    # R2b — the admission predicate, wherever it lives: request_allowed, its (inlined) helpers and their closures
     rb = prog.must_body("acmed::endpoint::RateLimit::request_allowed")
-    nexts = [c for c in rb.calls_to("core::iter::traits::iterator::Iterator::next")]
-    loop_over_limits = [c for c in nexts if ("acmed::endpoint::RateLimit", "limits") in arg_origins(c, 0).fields]
-    ctx.floor(R2b, "loop over self.limits in request_allowed", len(loop_over_limits), 1)
+    fam = [rb]
+    seen = {rb.key}
+    i = 0
+    while i < len(fam):
+        for c in fam[i].calls:
+            for g in c.gbodies:
+                gb = prog.body(g)
+                if gb is not None and g not in seen:
+                    seen.add(g)
+                    fam.append(gb)
+        i += 1
+    QL = ("acmed::endpoint::RateLimit", "query_log")
+    LIM = ("acmed::endpoint::RateLimit", "limits")
+    # (a) every limit is examined: loop idiom or all()/any() idiom
+    conj = None
+    nexts = [c for c in rb.calls_to("core::iter::traits::iterator::Iterator::next") if LIM in arg_origins(c, 0).fields]
+    alls = [c for c in rb.calls_to("core::iter::traits::iterator::Iterator::all", "core::iter::traits::iterator::Iterator::any") if LIM in arg_origins(c, 0).fields]
     true_blocks = assigns_const_to(rb, 0, lambda c: c.get("bool") is True)
     false_blocks = assigns_const_to(rb, 0, lambda c: c.get("bool") is False)
-    if loop_over_limits:
-        nx = loop_over_limits[0]
-        from ..mir import try_edges
+    from ..mir import try_edges
+    if nexts:
+        conj = "loop"
+        nx = nexts[0]
         tests = try_edges(rb, [nx.dest["l"]])
         none_edges = [(t["bb"], tg) for t in tests for tg in t["err"]]
         ok, hit = unreachable_without(rb, true_blocks, removed_edges=none_edges)
         ctx.require(R2b, ok and true_blocks, where(rb, (hit or true_blocks or [0])[0]),
-                    "`true` is returned only once every limit was examined (end of the loop over self.limits)",
-                    ["request_allowed", "true-before-all-limits"])
-    # the comparison count vs max
+                    "`true` is returned only once every limit was examined (end of the loop over self.limits)", ["request_allowed", "true-before-all-limits"])
+    elif alls:
+        conj = "all" if alls[0].name.endswith("::all") else "any"
+        ret = origins(rb, {"l": 0, "p": []})
+        negated = "unop:Not" in ret.via
+        ok = any(x.bb == alls[0].bb for x in ret.calls) and ((conj == "all" and not negated) or (conj == "any" and negated))
+        ctx.require(R2b, ok, alls[0].where(), "request_allowed = limits.iter().%s(per-limit predicate)%s" % (conj, " negated" if negated else ""), ["request_allowed", "conjunction"])
+    else:
+        ctx.fail(R2b, "%s:%s" % (rb.file, rb.line), "request_allowed does not visit every element of self.limits (no loop / all / any over it)", ["request_allowed", "limits-not-visited"])
+    # (b) the comparison count vs max
     found = 0
-    for i in sorted(rb.live_blocks()):
-        for st in rb.blocks[i]["stmts"]:
-            if st["s"] != "assign" or st["rv"]["k"] != "binop" or st["rv"]["op"] not in CMP_OPS:
-                continue
-            a = origins(rb, st["rv"]["a"])
-            bb_ = origins(rb, st["rv"]["b"])
-            fa = ("acmed::endpoint::RateLimit", "query_log") in a.fields
-            fb = ("acmed::endpoint::RateLimit", "query_log") in bb_.fields
-            la = ("acmed::endpoint::RateLimit", "limits") in a.fields
-            lb = ("acmed::endpoint::RateLimit", "limits") in bb_.fields
-            if not ((fa and lb and not fb) or (fb and la and not fa)):
-                continue
-            found += 1
-            op = st["rv"]["op"]
-            count_left = fa
-            # normalise to predicate over (count, max)
-            norm = op if count_left else {"Ge": "Le", "Gt": "Lt", "Le": "Ge", "Lt": "Gt", "Eq": "Eq", "Ne": "Ne"}[op]
-            # the max side reads tuple field .0 (the number), not .1 (the period)
-            maxside = bb_ if count_left else a
-            reads_number = ("tuple", 0) in maxside.fields and ("tuple", 1) not in maxside.fields
-            ctx.require(R2b, reads_number, where(rb, i), "the admission bound is the limit's number (tuple field 0)",
-                        ["request_allowed", "bound-field"])
-            sw = switches_on(rb, st["lhs"]["l"])
-            deny_ok = False
-            for sbb, neg in sw:
-                t, f = bool_edges(rb, sbb)
-                if neg:
-                    t, f = f, t
-                if norm == "Ge":
-                    deny_from = t
-                elif norm == "Lt":
-                    deny_from = f
+    for body in fam:
+        for i in sorted(body.live_blocks()):
+            for st in body.blocks[i]["stmts"]:
+                if st["s"] != "assign" or st["rv"]["k"] != "binop" or st["rv"]["op"] not in CMP_OPS:
+                    continue
+                a = origins(body, st["rv"]["a"])
+                bb_ = origins(body, st["rv"]["b"])
+                fa, fb = QL in a.fields, QL in bb_.fields
+                ma = ("tuple", 0) in a.fields and not fa
+                mb = ("tuple", 0) in bb_.fields and not fb
+                if not ((fa and mb) or (fb and ma)):
+                    continue
+                found += 1
+                op = st["rv"]["op"]
+                norm = op if fa else {"Ge": "Le", "Gt": "Lt", "Le": "Ge", "Lt": "Gt", "Eq": "Eq", "Ne": "Ne"}[op]
+                maxside = bb_ if fa else a
+                ctx.require(R2b, ("tuple", 1) not in maxside.fields, where(body, i), "the admission bound is the limit's number (tuple field 0)", ["request_allowed", "bound-field"])
+                good = False
+                if body is rb and conj == "loop":
+                    for sbb, neg in switches_on(rb, st["lhs"]["l"]):
+                        t, f = bool_edges(rb, sbb)
+                        if neg:
+                            t, f = f, t
+                        deny_from = t if norm == "Ge" else f if norm == "Lt" else None
+                        if deny_from is not None:
+                            r = rb.reachable([deny_from], removed_nodes=false_blocks)
+                            if not (r & set(rb.return_blocks())) or deny_from in false_blocks:
+                                good = True
                 else:
-                    deny_from = None
-                if deny_from is not None:
-                    # every path from the deny edge to return passes `_0 = false`
-                    r = rb.reachable([deny_from], removed_nodes=false_blocks)
-                    rets = set(rb.return_blocks())
-                    if not (r & rets) and deny_from not in rets or deny_from in false_blocks:
-                        deny_ok = True
-            ctx.require(R2b, deny_ok, where(rb, i),
-                        "admission is denied when count >= max (found operator `%s` on (count,max)%s)" % (norm, "" if deny_ok else
-                        " — a request is admitted although `max` requests are already in the window, or the deny edge does not return false"),
-                        ["request_allowed", "count-vs-max"])
+                    # predicate closure: its value is the closure's result, with the polarity the combinator needs
+                    ret = origins(body, {"l": 0, "p": []})
+                    flows = st["lhs"]["l"] in ret.locals
+                    negated = "unop:Not" in ret.via
+                    allow = (norm == "Lt" and not negated) or (norm == "Ge" and negated)
+                    deny = (norm == "Ge" and not negated) or (norm == "Lt" and negated)
+                    good = flows and ((conj == "all" and allow) or (conj == "any" and deny))
+                ctx.require(R2b, good, where(body, i),
+                            "a limit admits only while count < max (operator `%s` on (count,max) in %s, combined by %s)" % (norm, body.key.rsplit("::", 2)[-2] if "closure" in body.key else body.key.rsplit("::", 1)[1], conj),
+                            ["request_allowed", "count-vs-max"])
     ctx.floor(R2b, "comparison between the log count and the limit's number", found, 1)
-    # window: checked_sub(now, period) and the filter closure `x > max_date`
-    for c in rb.calls_to("std::time::Instant::checked_sub"):
-        a0 = arg_origins(c, 0)
-        a1 = arg_origins(c, 1)
-        ctx.require(R2b, a0.via_any("std::time::Instant::now") and ("tuple", 1) in a1.fields, c.where(),
-                    "window start = Instant::now() - the limit's period (tuple field 1)", ["request_allowed", "window-start"])
-    filt = [c for c in rb.calls_to("core::iter::traits::iterator::Iterator::filter") if c.gbodies]
-    ctx.floor(R2b, "filter over query_log", len(filt), 1)
-    for c in filt:
-        check_younger_closure(ctx, R2b, prog.must_body(c.gbodies[0]), "request_allowed")
+    # (c) window start and the `younger than` filter
+    n_cs = 0
+    n_f = 0
+    for body in fam:
+        for c in body.calls_to("std::time::Instant::checked_sub"):
+            n_cs += 1
+            a0 = arg_origins(c, 0)
+            a1 = arg_origins(c, 1)
+            per = ("tuple", 1) in a1.fields or (a1.has_leaf("param:") and not a1.via_any("std::time::Instant::now"))
+            ctx.require(R2b, a0.via_any("std::time::Instant::now") and per, c.where(), "window start = Instant::now() - the limit's period", ["request_allowed", "window-start"])
+        for c in body.calls_to("core::iter::traits::iterator::Iterator::filter"):
+            if QL in arg_origins(c, 0).fields and c.gbodies:
+                n_f += 1
+                check_younger_closure(ctx, R2b, prog.must_body(c.gbodies[-1]), "request_allowed")
+    ctx.floor(R2b, "checked_sub(now, period)", n_cs, 1)
+    ctx.floor(R2b, "filter over query_log", n_f, 1)
     # R2c prune with longest
     pb = prog.must_body("acmed::endpoint::RateLimit::prune_log")
     nb = prog.must_body("acmed::endpoint::RateLimit::new")
